@@ -58,6 +58,13 @@ def check(ctx: Ctx, col: Collector, tier: str) -> None:
     for icn in (True, False):
         outs = ctx.interp(cfi).run_function(cfi, {"name": Sym("name"), "naming_convention": EnumM(NC, "SAFE_DS"), "is_class_name": Const(icn)})
         rets = [o for o in outs if o.kind == "return"]
+        # a path that tests the joined parts for emptiness and returns '' is not feasible: names without a letter take the identity exit (checked
+        # below as `covers_all`), every other name has a non-empty part
+        def empty_join(o) -> bool:
+            return o.value == Const("") and any(fv is False and k.startswith("truthy:") and "Rep[" in k and not k.startswith("truthy:.strip(<name>") for k, fv in o.facts)
+        infeasible = [o for o in rets if empty_join(o)]
+        rets = [o for o in rets if not empty_join(o)]
+        outs = [o for o in outs if not empty_join(o)]
         # (1) the only names that leave the conversion untouched consist of underscores only (no letter to capitalise): the path
         #     established name == "_" or that stripping the underscores leaves nothing
         def only_underscores(o) -> bool:
@@ -68,6 +75,9 @@ def check(ctx: Ctx, col: Collector, tier: str) -> None:
         # every name without a letter must take the identity exit ("__" would otherwise be converted to the empty identifier)
         covers_all = any((o.value == Sym("name") or isinstance(o.value, Const)) and any((not v and k == "truthy:.strip(<name>, '_')") or (v and k in ("''==.strip(<name>, '_')", ".strip(<name>, '_')==''"))
                                                                                     for k, v in o.facts) for o in rets)
+        if infeasible and not covers_all:
+            rets, outs = rets + infeasible, outs + infeasible
+            verbatim = verbatim + infeasible
         if not covers_all and not verbatim and len(rets) == len(outs):
             col.bad("C09.CONVERT-SHAPE", key, repo.loc(GHELPER, cfi.node), "no identity exit for names that consist of underscores only",
                     f"{CONV}(is_class_name={icn}) converts a name that consists of underscores only (`__`, `___`) like any other name: nothing is left after the underscores are removed, "
